@@ -191,6 +191,13 @@ func (bc *boundsChecker) checkIndex(rule string, fn *ssa.Function, a *Arith, in 
 		need = append(need, "index < len")
 	}
 	if t, ok := bc.trusted[key]; ok && t.covers(need) {
+		if key == "token.String|index tokens[t]" {
+			// premise, checked mechanically: the table covers every TokenType constant
+			if okT, missing := m.tokTableComplete(); !okT {
+				bc.s.Violation(rule, key, m.InstrPos(in), "token.String indexes the name table with a TokenType, and the table has no entry for %v", missing)
+				return
+			}
+		}
 		bc.s.OKTrivial(rule, key, m.InstrPos(in), "TRUSTED for %v (other parts proven): %s", need, t.reason)
 		return
 	}
@@ -318,7 +325,7 @@ var trustedBounds = map[string]trustedPart{
 	"lexer.(*Lexer).readString|slice l.input[l.pos:l.pos]":          {[]string{"high <= len", "low <= high"}, lexerPosInvariant},
 	"object.(*Array).Dump|slice String(out)[(len(String(out))-8):]": {[]string{"low >= 0"}, "the buffer always starts with the constant 60-byte header written unconditionally above, so len(res) >= 8"},
 	"lexer.(*Lexer).skipComment|slice l.input[l.pos:]":              {[]string{"low <= len"}, lexerPosInvariant + "; the slice is taken under the loop condition l.char != 0, where pos < len(input)"},
-	"token.String|index tokens[t]":                                  {[]string{"index >= 0", "index < len"}, "TokenType values are the iota constants (>= 0) held in the token tables; latent only: DUMP is the one TokenType >= len(tokens); the lexer emits directive tokens only in HTML mode while every expectPeek call (the only non-constant caller) runs in code mode or with peek in {END, ELSE, ELSE_IF, EOF}, so DUMP never reaches String; reported as information, no failing input exists"},
+	"token.String|index tokens[t]":                                  {[]string{"index >= 0", "index < len"}, "every value of type TokenType is one of the iota constants (they only come from constants and the token tables), and R-TOKTABLE checks on every run that the table has an entry for each constant"},
 }
 
 // RunDivOnly: only the R-DIVGUARD obligations.
